@@ -68,6 +68,8 @@ class ProgGen:
             wild_numbers=True,
             need_register=True,
             p_sub_count=0.5,
+            p_qualified_twin=0.0,
+            p_negative_step=0.15,
             macro_sub=False,
             p_twin=0.0,
             p_overlap=0.0,
@@ -165,6 +167,21 @@ class ProgGen:
                 v = self.number("i")
             self.lets[name] = v
             self.header.append(("let", name, v))
+        if self.lets and rng.random() < p["p_qualified_twin"]:
+            # a second constant that differs from an existing one only by a namespace prefix (legal: identifiers may be
+            # dotted); it has its own value and must never be confused with the short name
+            short = rng.choice(sorted(self.lets))
+            qual = rng.choice(["cal.", "ns.", "a.b."]) + short
+            if qual not in self.used and "." not in short:
+                v0 = self.lets[short]
+                v = (v0 + 1) if isinstance(v0, int) else (v0 * 0.5 + 1.25)
+                self.used.add(qual)
+                self.lets[qual] = v
+                if isinstance(v, float):
+                    self.float_lets.append(qual)
+                elif short in self.int_lets and 0 <= v <= 4:
+                    self.int_lets.append(qual)
+                self.header.append(("let", qual, v))
         if p["need_register"] or rng.random() < 0.9:
             self.regname = self.fresh(REG_NAMES, "q")
             size = self.rint(p["reg_size"])
@@ -214,7 +231,7 @@ class ProgGen:
             i = rng.randrange(n)
             self.header.append(("map", name, src, self.ioi(i, pl)))
             self.single[name] = els[i]
-        elif rng.random() < self.p.get("p_negative_step", 0.15):
+        elif rng.random() < self.p["p_negative_step"]:
             # a slice counting down: elements start, start+step, ... while > stop (stop may be -1 or lower)
             step = -rng.choice([1, 1, 2, 3])
             start = rng.randrange(n)
